@@ -37,8 +37,11 @@ What is stated where (clause → theorem):
 * what is signed BEFORE an election (there is no gate): `signatures_before_election_sign_the_defaults`,
   `confirms_before_estimate_confirm_the_default`, `unelected_message_is_signable`.
 
-ABSTRACTIONS: one queue of one target chain (`targetChain = 0`; sibling chains exist only as registry
-entries), messages of the four kinds of `Kind` (compass deployments, whose signing bytes contain neither
+ABSTRACTIONS: `State` / `Op` hold one queue of one target chain (`targetChain = 0`; there, sibling chains exist
+only as registry entries); the queues of ALL chains of the chain type, with requests that carry several signatures
+for several of them, are `MultiQ` / `signRequest` / `MQOp` (section "several chains, several signatures per request":
+`request_signature_under_own_chain_key`, `request_needs_account_on_every_entry_chain`, `request_rejected_is_noop`,
+`multi_chain_invariant_all_histories`, `singleton_request_is_sign`; sibling queues carry no estimates there), messages of the four kinds of `Kind` (compass deployments, whose signing bytes contain neither
 relayer nor estimate, are C05's subject), the relayer trigger of clause 3 cannot be exercised (no reachable
 operation rewrites the relayer: `core_fields_never_change`, `reassignDead_would_violate`).
 
@@ -1361,6 +1364,225 @@ def sapply (st : ConfStore) : SOp → ConfStore
 
 def srun (ops : List SOp) : ConfStore := ops.foldl sapply []
 
+/-! #### several chains, several signatures per request -/
+
+theorem queueOf_setQueue (w : MultiQ) (c c' : Nat) (q : List Item) :
+    queueOf (setQueue w c q) c' = if c' = c then some q else queueOf w c' := rfl
+
+theorem regs_setQueue (w : MultiQ) (c : Nat) (q : List Item) : (setQueue w c q).regs = w.regs := rfl
+
+/-- `Queue.AddSignature` answers `ok` exactly on the admission conditions, and then stores exactly one signature -/
+theorem storeSigned_ok {q : List Item} {val key : Nat} {e : SigEntry} (h : (storeSigned q val key e).2 = .ok) :
+    ∃ it, getItem q e.id = some it ∧ dupCheck it.sigs key val = none ∧ verifies e.wire key e.by_ e.for_ (bytesOf it) = true ∧
+      (storeSigned q val key e).1 = setItem q (addSig it ⟨val, e.addr, key, e.by_, e.for_, e.wire⟩) := by
+  cases hg : getItem q e.id with
+  | none => simp [storeSigned, hg] at h
+  | some it =>
+    cases hd : dupCheck it.sigs key val with
+    | some r =>
+      simp only [storeSigned, hg, hd] at h
+      exact absurd (h ▸ hd) (dupCheck_ne_ok _ _ _)
+    | none =>
+      by_cases hv : verifies e.wire key e.by_ e.for_ (bytesOf it) = true
+      · exact ⟨it, rfl, hd, hv, by simp [storeSigned, hg, hd, hv]⟩
+      · simp [storeSigned, hg, hd, hv] at h
+
+/-- a signature the validator `val` put on message `it'` of chain `c` by one of the entries `es`, checked under
+    the key `GetSigningKey` returns on the registry `regs` FOR CHAIN `c` -/
+def StoredBy (regs : List (Nat × List Account)) (val : Nat) (es : List SigEntry) (c : Nat) (it' : Item) (sg : Sig) : Prop :=
+  ∃ e ∈ es, e.chain = c ∧ e.id = it'.id ∧ sg.val = val ∧ sg.addr = e.addr ∧ sg.by_ = e.by_ ∧ sg.for_ = e.for_ ∧
+    sg.wire = e.wire ∧ signingKeyOn c regs val e.addr = some sg.key
+
+/-- one step of the loop (`memo = false`): the equations `simp` needs -/
+theorem signLoop_cons_ok {val : Nat} {cache : List (Nat × Nat)} {w w' : MultiQ} {e : SigEntry} {rest : List SigEntry}
+    (h : signLoop false val cache w (e :: rest) = (w', .ok)) :
+    ∃ q key, queueOf w e.chain = some q ∧ signingKeyOn e.chain w.regs val e.addr = some key ∧
+      (storeSigned q val key e).2 = .ok ∧
+      signLoop false val ((e.addr, key) :: cache) (setQueue w e.chain (storeSigned q val key e).1) rest = (w', .ok) := by
+  unfold signLoop at h
+  split at h
+  · cases h
+  · rename_i q hq
+    split at h
+    · cases h
+    · rename_i key hk
+      split at h
+      · rename_i hs
+        refine ⟨q, key, hq, by simpa [keyFor] using hk, by simpa using hs, h⟩
+      · rename_i hs
+        exfalso
+        apply hs
+        have := congrArg Prod.snd h
+        simp only at this
+        simp [this]
+
+/-- what a request that went through stored, on every chain: registry untouched, queues exist as before, and every
+    signature is an old one of the message with the same id or was stored by an entry FOR THAT CHAIN under that
+    chain's key -/
+theorem signLoop_sigs (val : Nat) : ∀ (es : List SigEntry) (cache : List (Nat × Nat)) (w w' : MultiQ),
+    signLoop false val cache w es = (w', .ok) →
+    w'.regs = w.regs ∧ ∀ c q', queueOf w' c = some q' → ∃ q, queueOf w c = some q ∧ ∀ it' ∈ q', ∀ sg ∈ it'.sigs,
+      (∃ it ∈ q, it.id = it'.id ∧ sg ∈ it.sigs) ∨ StoredBy w.regs val es c it' sg := by
+  intro es
+  induction es with
+  | nil =>
+    intro cache w w' h
+    unfold signLoop at h
+    cases h
+    exact ⟨rfl, fun c q' hq' => ⟨q', hq', fun it' hit' sg hsg => Or.inl ⟨it', hit', rfl, hsg⟩⟩⟩
+  | cons e rest ih =>
+    intro cache w w' h
+    obtain ⟨q, key, hq, hk, hs, hrest⟩ := signLoop_cons_ok h
+    obtain ⟨it, hg, _, _, hq1⟩ := storeSigned_ok hs
+    obtain ⟨hr, hall⟩ := ih _ _ _ hrest
+    rw [regs_setQueue] at hr
+    refine ⟨hr, ?_⟩
+    intro c q' hq'
+    obtain ⟨q1, hq1c, hsig⟩ := hall c q' hq'
+    rw [queueOf_setQueue] at hq1c
+    by_cases hc : c = e.chain
+    · rw [if_pos hc] at hq1c
+      refine ⟨q, hc ▸ hq, ?_⟩
+      intro it' hit' sg hsg
+      rcases hsig it' hit' sg hsg with ⟨it1, hit1, hid1, hsg1⟩ | ⟨e', he', h1, h2, h3⟩
+      · have hq1' : q1 = setItem q (addSig it ⟨val, e.addr, key, e.by_, e.for_, e.wire⟩) := by
+          rw [← hq1]; exact (Option.some.inj hq1c).symm
+        rw [hq1'] at hit1
+        rcases mem_setItem hit1 with ⟨hm, _⟩ | ⟨rfl, _⟩
+        · exact Or.inl ⟨it1, hm, hid1, hsg1⟩
+        · simp only [addSig, List.mem_append, List.mem_singleton] at hsg1
+          rcases hsg1 with hold | rfl
+          · exact Or.inl ⟨it, (getItem_mem hg).1, hid1, hold⟩
+          · refine Or.inr ⟨e, List.mem_cons_self, hc.symm, ?_, rfl, rfl, rfl, rfl, rfl, hc ▸ hk⟩
+            rw [← hid1]
+            exact (getItem_mem hg).2.symm
+      · exact Or.inr ⟨e', List.mem_cons_of_mem _ he', h1, h2, by rw [regs_setQueue] at h3; exact h3⟩
+    · rw [if_neg hc] at hq1c
+      refine ⟨q1, hq1c, ?_⟩
+      intro it' hit' sg hsg
+      rcases hsig it' hit' sg hsg with hold | ⟨e', he', h1, h2, h3⟩
+      · exact Or.inl hold
+      · exact Or.inr ⟨e', List.mem_cons_of_mem _ he', h1, h2, by rw [regs_setQueue] at h3; exact h3⟩
+
+/-- every message of every queue satisfies the per-item invariant -/
+def MultiOk (w : MultiQ) : Prop := ∀ c q, queueOf w c = some q → ∀ it ∈ q, ItemOk it
+
+theorem signLoop_multiOk (val : Nat) : ∀ (es : List SigEntry) (cache : List (Nat × Nat)) (w : MultiQ),
+    MultiOk w → MultiOk (signLoop false val cache w es).1 := by
+  intro es
+  induction es with
+  | nil => intro cache w h; unfold signLoop; exact h
+  | cons e rest ih =>
+    intro cache w h
+    unfold signLoop
+    split
+    · exact h
+    · rename_i q hq
+      split
+      · exact h
+      · rename_i key hk
+        split
+        · rename_i hs
+          have hs' : (storeSigned q val key e).2 = .ok := by simpa using hs
+          obtain ⟨it, hg, hd, hv, hq1⟩ := storeSigned_ok hs'
+          apply ih
+          intro c qc hqc x hx
+          rw [queueOf_setQueue] at hqc
+          by_cases hc : c = e.chain
+          · rw [if_pos hc] at hqc
+            have : qc = setItem q (addSig it ⟨val, e.addr, key, e.by_, e.for_, e.wire⟩) := by
+              rw [← hq1]; exact (Option.some.inj hqc).symm
+            rw [this] at hx
+            rcases mem_setItem hx with ⟨hm, _⟩ | ⟨rfl, _⟩
+            · exact h e.chain q hq x hm
+            · exact itemOk_addSig (h e.chain q hq it (getItem_mem hg).1) hv hd
+          · rw [if_neg hc] at hqc
+            exact h c qc hqc x hx
+        · exact h
+
+theorem multiOk_signRequest (w : MultiQ) (val : Nat) (es : List SigEntry) (h : MultiOk w) : MultiOk (signRequest w val es).1 := by
+  unfold signRequest signRequestWith
+  split
+  · exact signLoop_multiOk val es [] w h
+  · exact h
+
+theorem multiOk_putOn (w : MultiQ) (c id : Nat) (k : Kind) (ct sd a r : Nat) (rq : Bool) (h : MultiOk w) :
+    MultiOk (putOn w c id k ct sd a r rq) := by
+  intro c' q hq x hx
+  unfold putOn at hq
+  rw [queueOf_setQueue] at hq
+  by_cases hc : c' = c
+  · rw [if_pos hc] at hq
+    cases hq
+    rcases List.mem_append.mp hx with hx | hx
+    · cases hqc : queueOf w c with
+      | none => simp [hqc] at hx
+      | some q0 => simp [hqc] at hx; exact h c q0 hqc x hx
+    · simp only [List.mem_singleton] at hx
+      subst hx
+      exact itemOk_nosigs rfl
+  · rw [if_neg hc] at hq
+    exact h c' q hq x hx
+
+theorem multiOk_mqapply (s : MQState) (op : MQOp) (h : MultiOk s.w) : MultiOk (mqapply s op).w := by
+  cases op with
+  | register v a =>
+    simp only [mqapply]
+    split <;> exact h
+  | put c k ct sd a r q =>
+    simp only [mqapply]
+    exact multiOk_putOn s.w c _ k ct sd a r q h
+  | request v es =>
+    simp only [mqapply]
+    exact multiOk_signRequest s.w v es h
+
+theorem signingKeyOn_mem {c : Nat} {regs : List (Nat × List Account)} {val addr key : Nat} (h : signingKeyOn c regs val addr = some key) :
+    ∃ r ∈ regs, ∃ a ∈ r.2, r.1 = val ∧ a.chain = c ∧ a.addr = addr ∧ a.raw = key := by
+  unfold signingKeyOn at h
+  split at h
+  · cases h
+  · rename_i accts hacc
+    unfold assoc? at hacc
+    cases hf : regs.find? (fun p => p.1 == val) with
+    | none => simp [hf] at hacc
+    | some r =>
+      simp only [hf, Option.map_some, Option.some.injEq] at hacc
+      cases hfa : accts.find? (fun a => a.chain == c && a.addr == addr) with
+      | none => simp [hfa] at h
+      | some a =>
+        simp only [hfa, Option.map_some, Option.some.injEq] at h
+        have hp := List.find?_some hfa
+        simp only [Bool.and_eq_true, beq_iff_eq] at hp
+        refine ⟨r, List.mem_of_find?_eq_some hf, a, ?_, by simpa using List.find?_some hf, hp.1, hp.2, h⟩
+        rw [hacc]; exact List.mem_of_find?_eq_some hfa
+
+/-- a request goes through only if EVERY entry finds a key on the registry for the chain of its own queue -/
+theorem signLoop_ok_all_keys (val : Nat) : ∀ (es : List SigEntry) (cache : List (Nat × Nat)) (w w' : MultiQ),
+    signLoop false val cache w es = (w', .ok) → ∀ e ∈ es, ∃ key, signingKeyOn e.chain w.regs val e.addr = some key := by
+  intro es
+  induction es with
+  | nil => intro _ _ _ _ e he; cases he
+  | cons e0 rest ih =>
+    intro cache w w' h e he
+    obtain ⟨q, key, _, hk, _, hrest⟩ := signLoop_cons_ok h
+    rcases List.mem_cons.mp he with rfl | he
+    · exact ⟨key, hk⟩
+    · have := ih _ _ _ hrest e he
+      rw [regs_setQueue] at this
+      exact this
+
+theorem signRequest_ok_loop {w : MultiQ} {val : Nat} {es : List SigEntry} (h : (signRequest w val es).2 = .ok) :
+    signLoop false val [] w es = ((signRequest w val es).1, .ok) := by
+  unfold signRequest signRequestWith at h ⊢
+  split
+  · rename_i hs
+    have hs' : (signLoop false val [] w es).2 = .ok := by simpa using hs
+    exact Prod.ext rfl hs'
+  · rename_i hs
+    rw [if_neg hs] at h
+    simp only at h
+    exact absurd (by simp [h]) hs
+
 end Lemmas
 
 /-! ## Property theorems -/
@@ -2416,5 +2638,163 @@ theorem unrelayed_message_keeps_relayer_and_valid_signatures (ops : List Op) (n 
 /-- non-vacuity: the demo message (two signatures, one estimate: no quorum) after 45 idle blocks -/
 example : ((idleBlocks (run (demo.take 9)) (44 + 1)).queue.map fun it => (it.assignee, it.remote, it.sigs.length, it.sigs.all fun g => g.for_ == bytesOf it)) =
     [(1, 4, 2, true)] := by rw [idle_blocks_equal_one_block]; decide
+
+/-! ### several chains, several signatures per request
+
+One `MsgAddMessagesSignatures` carries signatures for several messages, of several queues (`signRequest` over
+`MultiQ`: the turnstone queues of all chains of the chain type, one registry).  Clause 1 says "under the key its
+validator had registered FOR THAT CHAIN": for every entry of a request that is the chain of the entry's own
+queue, whatever the entries before it were checked under. -/
+
+/-- **request_signature_under_own_chain_key** (clause 1 for a request of any length over any number of chains).  After a
+request that went through, on every chain every stored signature is an old one of the message with the same id, or
+was stored by an entry of the request for a message OF THAT CHAIN, and its key is what `GetSigningKey` returns on the
+registry for THAT chain under the address the entry claims: the key bytes of an account the validator had registered
+on the chain of the message's queue.  The registry is untouched and no queue appears or disappears. -/
+theorem request_signature_under_own_chain_key (w : MultiQ) (val : Nat) (es : List SigEntry)
+    (h : (signRequest w val es).2 = .ok) :
+    (signRequest w val es).1.regs = w.regs ∧
+    ∀ c q', queueOf (signRequest w val es).1 c = some q' → ∃ q, queueOf w c = some q ∧ ∀ it' ∈ q', ∀ sg ∈ it'.sigs,
+      (∃ it ∈ q, it.id = it'.id ∧ sg ∈ it.sigs) ∨
+      (∃ e ∈ es, e.chain = c ∧ e.id = it'.id ∧ sg.val = val ∧ sg.addr = e.addr ∧ sg.by_ = e.by_ ∧ sg.for_ = e.for_ ∧
+        sg.wire = e.wire ∧ signingKeyOn c w.regs val e.addr = some sg.key ∧
+        ∃ r ∈ w.regs, ∃ a ∈ r.2, r.1 = val ∧ a.chain = c ∧ a.addr = e.addr ∧ a.raw = sg.key) := by
+  obtain ⟨hr, hall⟩ := signLoop_sigs val es [] w _ (signRequest_ok_loop h)
+  refine ⟨hr, ?_⟩
+  intro c q' hq'
+  obtain ⟨q, hq, hs⟩ := hall c q' hq'
+  refine ⟨q, hq, ?_⟩
+  intro it' hit' sg hsg
+  rcases hs it' hit' sg hsg with hold | ⟨e, he, h1, h2, h3, h4, h5, h6, h7, hk⟩
+  · exact Or.inl hold
+  · exact Or.inr ⟨e, he, h1, h2, h3, h4, h5, h6, h7, hk, signingKeyOn_mem hk⟩
+
+/-- **request_needs_account_on_every_entry_chain** (clause 1, refusal direction).  If for SOME entry of a request —
+at whatever position, behind however many entries that pass — the validator holds no account on the chain of
+that entry's queue under the address the entry claims (whatever it holds under that address on other chains), the
+request does not go through and nothing at all is stored. -/
+theorem request_needs_account_on_every_entry_chain (w : MultiQ) (val : Nat) (es : List SigEntry) (e : SigEntry) (he : e ∈ es)
+    (h : ∀ r ∈ w.regs, r.1 = val → ∀ a ∈ r.2, a.addr = e.addr → a.chain ≠ e.chain) :
+    (signRequest w val es).2 ≠ .ok ∧ (signRequest w val es).1 = w := by
+  have hne : (signRequest w val es).2 ≠ .ok := by
+    intro hok
+    obtain ⟨key, hk⟩ := signLoop_ok_all_keys val es [] w _ (signRequest_ok_loop hok) e he
+    obtain ⟨r, hr, a, ha, hv, hc, haddr, _⟩ := signingKeyOn_mem hk
+    exact h r hr hv a ha haddr hc
+  refine ⟨hne, ?_⟩
+  unfold signRequest signRequestWith at hne ⊢
+  split
+  · rename_i hs
+    rw [if_pos hs] at hne
+    exact absurd (by simpa using hs) hne
+  · rfl
+
+/-- **request_rejected_is_noop** (error branches: the handler runs on a cached context).  A request that does not
+answer `ok` — at whichever entry it failed — stores nothing, on any chain. -/
+theorem request_rejected_is_noop (w : MultiQ) (val : Nat) (es : List SigEntry) (h : (signRequest w val es).2 ≠ .ok) :
+    (signRequest w val es).1 = w := by
+  unfold signRequest signRequestWith at h ⊢
+  split
+  · rename_i hs
+    rw [if_pos hs] at h
+    exact absurd (by simpa using hs) h
+  · rfl
+
+/-- **multi_chain_invariant_all_histories** (clauses 1 and 2 over all histories of several chains).  After any history of
+registrations, enqueueing on any chain and requests of any length, every message of every queue keeps only signatures
+that verify against its current signing bytes under the key stored with them, a validator and a key at most once. -/
+theorem multi_chain_invariant_all_histories (ops : List MQOp) : MultiOk (mqrun ops).w := by
+  unfold mqrun
+  have : ∀ (s : MQState), MultiOk s.w → MultiOk (ops.foldl mqapply s).w := by
+    induction ops with
+    | nil => intro s h; exact h
+    | cons op rest ih => intro s h; exact ih _ (multiOk_mqapply s op h)
+  exact this {} (fun c q hq => by cases hq)
+
+/-- **request_one_step_all_histories** (clause 1, one step of a history of several chains): across a `request` op of any
+history, a new signature on a message of chain `c` carries the key registered for chain `c` in the state the request
+ran in. -/
+theorem request_one_step_all_histories (ops : List MQOp) (val : Nat) (es : List SigEntry)
+    (h : (signRequest (mqrun ops).w val es).2 = .ok) :
+    ∀ c q', queueOf (mqrun (ops ++ [.request val es])).w c = some q' → ∃ q, queueOf (mqrun ops).w c = some q ∧
+      ∀ it' ∈ q', ∀ sg ∈ it'.sigs, (∃ it ∈ q, it.id = it'.id ∧ sg ∈ it.sigs) ∨
+        (sg.val = val ∧ ∃ e ∈ es, e.chain = c ∧ e.id = it'.id ∧ sg.addr = e.addr ∧
+          signingKeyOn c (mqrun ops).w.regs val e.addr = some sg.key) := by
+  intro c q' hq'
+  have hrun : (mqrun (ops ++ [.request val es])).w = (signRequest (mqrun ops).w val es).1 := by
+    simp [mqrun, List.foldl_append, mqapply]
+  rw [hrun] at hq'
+  obtain ⟨q, hq, hs⟩ := (request_signature_under_own_chain_key _ val es h).2 c q' hq'
+  refine ⟨q, hq, ?_⟩
+  intro it' hit' sg hsg
+  rcases hs it' hit' sg hsg with hold | ⟨e, he, h1, h2, h3, h4, _, _, _, hk, _⟩
+  · exact Or.inl hold
+  · exact Or.inr ⟨h3, e, he, h1, h2, h4, hk⟩
+
+/-- validator 1 holds key 1 (address 4) on chain 0 and key 7 (address 28) on chain 1; validator 2 holds key 2 on both;
+    message 1 sits in the queue of chain 0, message 2 in the queue of chain 1 -/
+def twoQueues : List MQOp :=
+  [.register 1 [⟨0, 4, 4, false⟩, ⟨1, 28, 28, false⟩], .register 2 [⟨0, 8, 8, false⟩, ⟨1, 8, 8, false⟩],
+   .put 0 .slc 7 1 1 4 true, .put 1 .slc 7 1 1 4 true]
+
+def demoBytesC1 : SignBytes := { demoBytes0 with id := 2 }
+
+/-- non-vacuity and the refusal: behind a good chain-0 entry, validator 1's chain-0 account claimed for the chain-1
+    message is refused (`noKey`) and NOTHING is stored — also not the good first entry; the same signature sent alone is
+    refused likewise; with each entry under its own chain's account both are stored; validator 2 (one key everywhere)
+    signs both messages in one request -/
+example : (signRequest (mqrun twoQueues).w 1 [⟨0, 1, 4, 1, demoBytes0, .canonical⟩, ⟨1, 2, 4, 1, demoBytesC1, .canonical⟩]).2 = .noKey ∧
+    ((queueOf (signRequest (mqrun twoQueues).w 1 [⟨0, 1, 4, 1, demoBytes0, .canonical⟩, ⟨1, 2, 4, 1, demoBytesC1, .canonical⟩]).1 0).getD []).map (·.sigs.length) = [0] ∧
+    (signRequest (mqrun twoQueues).w 1 [⟨1, 2, 4, 1, demoBytesC1, .canonical⟩]).2 = .noKey ∧
+    (signRequest (mqrun twoQueues).w 1 [⟨0, 1, 4, 1, demoBytes0, .canonical⟩, ⟨1, 2, 28, 7, demoBytesC1, .canonical⟩]).2 = .ok ∧
+    (signRequest (mqrun twoQueues).w 2 [⟨0, 1, 8, 2, demoBytes0, .canonical⟩, ⟨1, 2, 8, 2, demoBytesC1, .canonical⟩]).2 = .ok := by decide
+
+example : ((queueOf (mqrun (twoQueues ++ [.request 1 [⟨0, 1, 4, 1, demoBytes0, .canonical⟩, ⟨1, 2, 28, 7, demoBytesC1, .canonical⟩],
+      .request 2 [⟨1, 2, 8, 2, demoBytesC1, .canonical⟩, ⟨0, 1, 8, 2, demoBytes0, .canonical⟩]])).w 1).getD []).map
+      (fun it => (it.id, bytesOf it, it.sigs.map fun g => (g.val, g.addr, g.key))) = [(2, demoBytesC1, [(1, 28, 28), (2, 8, 8)])] := by decide
+
+/-- all or nothing: a bad last entry (signature over other bytes) discards the good first one; the same message twice
+    in one request is a duplicate -/
+example : (signRequest (mqrun twoQueues).w 2 [⟨0, 1, 8, 2, demoBytes0, .canonical⟩, ⟨1, 2, 8, 2, demoBytes0, .canonical⟩]).2 = .badSig ∧
+    ((queueOf (signRequest (mqrun twoQueues).w 2 [⟨0, 1, 8, 2, demoBytes0, .canonical⟩, ⟨1, 2, 8, 2, demoBytes0, .canonical⟩]).1 0).getD []).map (·.sigs.length) = [0] ∧
+    (signRequest (mqrun twoQueues).w 2 [⟨0, 1, 8, 2, demoBytes0, .canonical⟩, ⟨0, 1, 8, 2, demoBytes0, .canonical⟩]).2 = .dupKey := by decide
+
+/-- **memoised_key_would_violate** (negation witness: why the key must be fetched per entry, for the entry's chain).  A
+loop that remembers, within one request, the key fetched for a claimed address (`signRequestWith true`) accepts the
+chain-1 entry under the CHAIN-0 key and stores it: message 2 of chain 1 then keeps a signature of validator 1 under
+key 4, while the key validator 1 registered for chain 1 is 28.  The stored signature verifies and is unique — the
+per-item invariant cannot see it; `request_signature_under_own_chain_key` is what rules it out. -/
+example : (signRequestWith true (mqrun twoQueues).w 1 [⟨0, 1, 4, 1, demoBytes0, .canonical⟩, ⟨1, 2, 4, 1, demoBytesC1, .canonical⟩]).2 = .ok ∧
+    ((queueOf (signRequestWith true (mqrun twoQueues).w 1 [⟨0, 1, 4, 1, demoBytes0, .canonical⟩, ⟨1, 2, 4, 1, demoBytesC1, .canonical⟩]).1 1).getD []).map
+      (fun it => it.sigs.map fun g => (g.val, g.addr, g.key)) = [[(1, 4, 4)]] ∧
+    signingKeyOn 1 (mqrun twoQueues).w.regs 1 4 = none ∧ signingKeyOn 1 (mqrun twoQueues).w.regs 1 28 = some 28 := by decide
+
+/-- the one-queue model is the chain-0 instance: `GetSigningKey` for the target chain is `signingKey` -/
+theorem signingKeyOn_targetChain (regs : List (Nat × List Account)) (val addr : Nat) :
+    signingKeyOn targetChain regs val addr = signingKey regs val addr := rfl
+
+/-- **singleton_request_is_sign** (the several-chains model extends the one-queue model conservatively): a request
+with ONE entry for the queue of the target chain answers what `sign` answers and leaves that queue as `sign` leaves it. -/
+theorem singleton_request_is_sign (s : State) (id val addr by_ : Nat) (for_ : SignBytes) (wr : Wire) :
+    (signRequest ⟨s.regs, fun c => if c = targetChain then some s.queue else none⟩ val [⟨targetChain, id, addr, by_, for_, wr⟩]).2
+        = (sign s id val addr by_ for_ wr).2 ∧
+    queueOf (signRequest ⟨s.regs, fun c => if c = targetChain then some s.queue else none⟩ val [⟨targetChain, id, addr, by_, for_, wr⟩]).1 targetChain
+        = some (sign s id val addr by_ for_ wr).1.queue := by
+  unfold signRequest signRequestWith signLoop signLoop sign signWith keyFor storeSigned queueOf
+  simp only [signingKeyOn_targetChain, if_true, Bool.false_eq_true, if_false]
+  cases hk : signingKey s.regs val addr with
+  | none => simp
+  | some key =>
+    cases hg : getItem s.queue id with
+    | none => simp
+    | some it =>
+      cases hd : dupCheck it.sigs key val with
+      | some r =>
+        have hr : r ≠ .ok := fun e => dupCheck_ne_ok _ _ _ (e ▸ hd)
+        simp [hd, hr]
+      | none =>
+        by_cases hv : verifies wr key by_ for_ (bytesOf it) = true
+        · simp [hd, hv, setQueue]
+        · simp [hd, hv]
 
 end Paloma.Queue
